@@ -3,11 +3,12 @@
      M <harness answer line>   model: run `recode` on the encoder's own command list of every
                                meta-block record; answer  "<h|PANIC:<p>|FUEL|SKIP>,..."  where h is the
                                hash of the canonical IR string (same format as the harness's ir=)
-                               followed by ":" and the new num_bytes_encoded
+                               followed by ":" and the new num_bytes_encoded, ":" the number of literal block
+                               types pushed, ":" 1/0 = StrideEval::choose_stride's assertion holds for that number
      S <harness answer line>   spec: replay the implementation's IR with the extracted ir_run
                                (history = custom dictionary ++ everything before); OK | FAIL mb=<k> <why>
-     A <harness answer line>   the three answers below joined by " | "
-     W <harness answer line>   hypothesis of C14_recode on the implementation's command lists
+     A <eff> <harness answer line>   the three answers below joined by " | "
+     W <eff> <harness answer line>   (eff = dictionary bytes the encoder put before the input) hypothesis of C14_recode on the implementation's command lists
                                (extracted cmds_ok): OK <n> | FAIL mb=<k>
      X <word_size> <word_id> <transform>   dict_expand -> hex | NONE *)
 let dict_bytes, dict_offsets, transforms =
@@ -149,7 +150,9 @@ let model_line (line : string) : string =
           out := (match r with
               | Done (ir, nbe) ->
                 let s = Stdlib.String.concat "," (Stdlib.List.map ir_item ir) in
-                Printf.sprintf "%d:%d" (hash_str (if s = "" then "-" else s)) (int_of_n nbe)
+                let nsw = count_literal_switches ir in
+                Printf.sprintf "%d:%d:%d:%d" (hash_str (if s = "" then "-" else s)) (int_of_n nbe) (int_of_nat nsw)
+                  (if choose_stride_ok nsw then 1 else 0)
               | Panic p -> "PANIC:" ^ panic_name p
               | OutOfFuel -> "FUEL") :: !out
       end) segs;
@@ -181,12 +184,15 @@ let spec_line (line : string) : string =
       end) segs;
   match !fail with None -> "OK" | Some w -> "FAIL " ^ w
 
-let hyp_line (line : string) : string =
+let rec drop k l = if k <= 0 then l else match l with [] -> [] | _ :: r -> drop (k - 1) r
+(* eff = number of dictionary bytes the encoder placed before the input (model/Dict.v): the
+   decoder's reading of the command list is relative to that prefix *)
+let hyp_line (eff : int) (line : string) : string =
   let (_, segs) = segments line in
   let pre = ref [] and k = ref 0 and fail = ref None in
   Stdlib.List.iter (fun seg ->
       let f = kv seg in
-      if has "dict" f then pre := bytes_of_hex (get "dict" f)
+      if has "dict" f then (let d = bytes_of_hex (get "dict" f) in pre := drop (Stdlib.List.length d - eff) d)
       else if has "mb" f && has "cmds" f then begin
         let mb = bytes_of_hex (get "mb" f) in
         let g x = n_of_int (int_of_string (get x f)) in
@@ -205,8 +211,12 @@ let () = iter_lines (fun line ->
          match line.[0] with
          | 'M' -> print_endline (model_line rest)
          | 'S' -> print_endline (spec_line rest)
-         | 'W' -> print_endline (hyp_line rest)
-         | 'A' -> print_endline (model_line rest ^ " | " ^ spec_line rest ^ " | " ^ hyp_line rest)
+         | 'W' | 'A' ->
+           let sp = Stdlib.String.index rest ' ' in
+           let eff = int_of_string (Stdlib.String.sub rest 0 sp) in
+           let rest = Stdlib.String.sub rest (sp + 1) (Stdlib.String.length rest - sp - 1) in
+           if line.[0] = 'W' then print_endline (hyp_line eff rest)
+           else print_endline (model_line rest ^ " | " ^ spec_line rest ^ " | " ^ hyp_line eff rest)
          | 'T' ->
            (* premises of C14_recode on the real tables: number of transforms, longest expansion *)
            let mx = ref 0 and cnt = ref 0 in
